@@ -259,7 +259,7 @@ func cmdCliCheck(args []string) {
 		}
 		line := J{"e": "cli", "n": cnt, "mode": "run", "cfg": cfg, "libst": libst, "libjson": libjson, "exit": exit, "stdout": so,
 			"msgonstderr": libmsg != "" && strings.Contains(se, firstLine), "crashed": crashed, "stderr": trunc(se, 300), "script": eff.script, "args": cliArgs, "stdin": trunc(stdin, 2000),
-			"nerr": 0, "ndiag": 0, "headers": 0, "allprinted": true}
+			"nerr": 0, "ndiag": 0, "headers": 0, "allprinted": true, "resultprinted": strings.Contains(so, "\"source\"")}
 		lw.write(line)
 		outcomes[libst]++
 		cnt++
@@ -304,7 +304,7 @@ func cmdCliCheck(args []string) {
 					}
 				}
 				lw.write(J{"e": "cli", "n": cnt, "mode": "check", "cfg": []any{}, "libst": "", "libjson": "", "exit": exit, "stdout": trunc(so, 600), "msgonstderr": false, "crashed": crashed,
-					"stderr": trunc(se, 300), "script": c.Text, "args": []string{"check", p}, "stdin": "", "nerr": countErrors(res.Diagnostics), "ndiag": len(res.Diagnostics), "headers": headers, "allprinted": all})
+					"stderr": trunc(se, 300), "script": c.Text, "args": []string{"check", p}, "stdin": "", "nerr": countErrors(res.Diagnostics), "ndiag": len(res.Diagnostics), "headers": headers, "allprinted": all, "resultprinted": false})
 				cnt++
 			}
 		}
